@@ -75,6 +75,9 @@ struct Ring {
     enabled: bool,
     /// our copy of the current kick descriptor
     kick: Option<EventFd>,
+    /// the descriptor the ring had when GET_VRING_BASE stopped it: a frontend keeps (and reuses)
+    /// its eventfd, the backend must have forgotten it - kicks on it must never be dispatched
+    stale: Option<EventFd>,
     /// kicks raised on the current descriptor that no dispatch has answered yet
     pending: u64,
     /// dispatch count at the last (de)activation / check
@@ -130,7 +133,7 @@ impl<V: VringT<dmn::Mem> + Clone + Send + Sync + 'static> Machine<V> {
     pub fn applicable(&self, op: &Op) -> bool {
         match op {
             Op::Enable(..) => self.acked_pf,
-            Op::Guest(r) => self.rings[*r].kick.is_some(),
+            Op::Guest(r) => self.rings[*r].kick.is_some() || self.rings[*r].stale.is_some(),
             _ => true,
         }
     }
@@ -156,6 +159,7 @@ impl<V: VringT<dmn::Mem> + Clone + Send + Sync + 'static> Machine<V> {
                 // the old descriptor is closed on our side as a frontend would do; kicks raised on
                 // it are gone with it
                 self.rings[r].kick = Some(fd);
+                self.rings[r].stale = None;
                 self.rings[r].pending = 0;
                 if !self.rings[r].started {
                     self.rings[r].started = true;
@@ -186,7 +190,7 @@ impl<V: VringT<dmn::Mem> + Clone + Send + Sync + 'static> Machine<V> {
                 self.fe.get_vring_base(r).map_err(|e| format!("{e:?}"))?;
                 let was_active = self.rings[r].active();
                 self.rings[r].started = false;
-                self.rings[r].kick = None;
+                self.rings[r].stale = self.rings[r].kick.take().or(self.rings[r].stale.take());
                 self.rings[r].pending = 0;
                 if was_active {
                     self.rings[r].dispatched = usize::MAX; // re-sampled at the quiescent point
@@ -203,6 +207,10 @@ impl<V: VringT<dmn::Mem> + Clone + Send + Sync + 'static> Machine<V> {
                 if let Some(k) = &self.rings[r].kick {
                     let _ = k.write(1);
                     self.rings[r].pending += 1;
+                } else if let Some(k) = &self.rings[r].stale {
+                    // a kick on the descriptor of the stopped ring: nothing may come of it
+                    let _ = k.write(1);
+                    report::count("kicks_on_stopped_ring_descriptor", 1);
                 }
             }
         }
